@@ -27,6 +27,16 @@ Theorem C10_parents_consistent f ilst_data cb f' atoms path it :
 Proof. exact (c10_parents_consistent f ilst_data cb f' atoms path it). Qed.
 Print Assumptions C10_parents_consistent.
 
+(* mp4_wf is preserved in full (tiling at every level, offset tables well-formed and inside the file), for files in which
+   every stco/co64/tfhd is among those the save visits (stco/co64 below the first moov, tfhd below a top-level moof) and a new
+   ilst without items named like a table: the hypotheses hold again for the next save. *)
+Theorem C10_wellformed_preserved f ilst_data cb f' atoms path it :
+  mp4_wf f = true -> mp4_atoms f = Ok atoms -> mp4_path atoms ILST_PATH = Some path -> mp4_tags_clean atoms = true ->
+  covered atoms -> ilst_wellformed ilst_data it -> ilst_clean it = true ->
+  mp4_save f ilst_data cb = Ok f' -> mp4_wf f' = true.
+Proof. exact (c10_wf_preserved f ilst_data cb f' atoms path it). Qed.
+Print Assumptions C10_wellformed_preserved.
+
 (* With (off, old) the replaced region (ilst + the one adjacent free atom) and delta the size change:
    - every stco / co64 table under moov keeps its count and every entry o becomes o + delta iff o > off (mp4_shift): entries at
      or beyond the end of the region move with the data, entries not past the region start stay; an entry pointing INTO the
@@ -86,24 +96,27 @@ Definition ex_check : bool :=
   | Ok atoms =>
     match mp4_path atoms ILST_PATH with
     | Some _ =>
-      mp4_tags_clean atoms &&
+      mp4_tags_clean atoms && covered_b atoms && mp4_forest_ok ex_file true atoms 0 (zlen ex_file) &&
       match mp4_atoms ex_ilst_big with
-      | Ok [it] => mp4_forest_ok ex_ilst_big false [it] 0 (zlen ex_ilst_big)
+      | Ok [it] => mp4_forest_ok ex_ilst_big false [it] 0 (zlen ex_ilst_big) && ilst_clean it
       | _ => false end &&
       match mp4_save ex_file ex_ilst_big (mp4_cb_const 9) with Ok f' => mp4_wf f' | _ => false end
     | None => false end
   | _ => false end.
 Example C10_ex_hypotheses :
   exists atoms path it f', mp4_atoms ex_file = Ok atoms /\ mp4_path atoms ILST_PATH = Some path /\ mp4_tags_clean atoms = true /\
-    ilst_wellformed ex_ilst_big it /\ mp4_save ex_file ex_ilst_big (mp4_cb_const 9) = Ok f' /\ mp4_wf f' = true.
+    covered atoms /\ ilst_wellformed ex_ilst_big it /\ ilst_clean it = true /\
+    mp4_save ex_file ex_ilst_big (mp4_cb_const 9) = Ok f' /\ mp4_wf f' = true.
 Proof.
   assert (H : ex_check = true) by (vm_compute; reflexivity). unfold ex_check in H.
   destruct (mp4_atoms ex_file) as [atoms|] eqn:Ea; [|discriminate].
   destruct (mp4_path atoms ILST_PATH) as [path|] eqn:Ep; [|discriminate].
-  apply andb_true_iff in H. destruct H as [H H3]. apply andb_true_iff in H. destruct H as [H1 H2].
-  destruct (mp4_atoms ex_ilst_big) as [[|it [|]]|]; try discriminate.
+  apply andb_true_iff in H. destruct H as [H H3]. apply andb_true_iff in H. destruct H as [H H2].
+  apply andb_true_iff in H. destruct H as [H H1']. apply andb_true_iff in H. destruct H as [H1 H1c].
+  destruct (mp4_atoms ex_ilst_big) as [[|it [|]]|]; try match goal with X : false = true |- _ => discriminate X end.
+  apply andb_true_iff in H2. destruct H2 as [H2 H2c].
   destruct (mp4_save ex_file ex_ilst_big (mp4_cb_const 9)) as [f'|] eqn:Es; [|discriminate].
-  exists atoms, path, it, f'. unfold ilst_wellformed. tauto.
+  exists atoms, path, it, f'. unfold ilst_wellformed. pose proof (covered_of_b ex_file atoms H1' H1c). tauto.
 Qed.
 
 (* all recorded offsets before and after a growing and a shrinking save: every one moved by exactly the size change
